@@ -43,7 +43,7 @@ GEOMS = {                     # df [Hz], dt [s], fch1 [Hz]
 }
 SIZES_Q = [(1, 5), (6, 2), (2, 5), (5, 1), (4, 9), (3, 16)]            # (tchans, fchans)
 SIZES_T = [(1, 1), (1, 5), (2, 2), (6, 2), (2, 5), (5, 1), (4, 9), (3, 16), (9, 4), (16, 33), (7, 64)]
-KINDS_Q = ['syn', 'syn_wf', 'fil', 'syn0']
+KINDS_Q = ['syn', 'syn_wf', 'fil', 'syn0', 'h5']
 KINDS_T = ['syn', 'syn_wf', 'fil', 'h5', 'sliced', 'fil_sliced', 'syn0']
 Q_BASE_Q = [0.3, 0.5, 1.0, 1.7, 2.0]
 Q_BASE_T = [0.05, 0.3, 0.5, 0.99, 1.0, 1.01, 1.5, 1.7, 2.0, 2.5, 3.3, 7.0]
@@ -189,6 +189,13 @@ def _parent_intact(P, p0, fs0, V, site):
     if P.data.shape != p0.shape or P.data.tobytes() != p0.astype(P.data.dtype).tobytes() \
             or not np.array_equal(P.fs, fs0):
         V(site, 'parent_modified', 'taking the derived frame changed the parent data / frequency axis')
+    # a parent loaded from an HDF5 file keeps a reader with an open file handle: it must still be there (the reader is
+    # the parent's -- and possibly the caller's -- object, re-reading through it must keep working)
+    wf = getattr(P, 'waterfall', None)
+    cont = getattr(wf, 'container', None)
+    if cont is not None and type(cont).__name__ == 'H5Reader' and not hasattr(cont, 'h5'):
+        V(site, 'parent_reader_broken', 'taking the derived frame removed the open HDF5 handle from the PARENT\'s Waterfall reader '
+          '(read_data on it now raises AttributeError)')
 
 
 # ----------------------------------------------------------------------------- slice
